@@ -296,6 +296,7 @@ type envClause struct {
 	envObj types.Object
 	okObj  types.Object
 	fields map[*types.Var]ast.Node // fields assigned in the body
+	helper *FuncInfo               // package helper wrapping the lookup (nil: os.LookupEnv / os.Getenv directly)
 }
 
 func c20Table(p *Prog, r *Report) {
@@ -378,7 +379,15 @@ func c20Table(p *Prog, r *Report) {
 			case isFunc(info, c, "os", "Getenv") && len(as.Lhs) == 1:
 				cl = &envClause{fn: fi, ifs: ifs, envVar: name, envObj: objOf(info, as.Lhs[0]), fields: map[*types.Var]ast.Node{}}
 			default:
-				return true
+				// a lookup helper of the package: func(name string) (string, bool) (or string) around os.LookupEnv / os.Getenv
+				h := p.staticCallee(fi.Pkg, c)
+				if h == nil || h.Pkg != fi.Pkg || !isEnvLookupHelper(p, h) {
+					return true
+				}
+				cl = &envClause{fn: fi, ifs: ifs, envVar: name, envObj: objOf(info, as.Lhs[0]), fields: map[*types.Var]ast.Node{}, helper: h}
+				if len(as.Lhs) == 2 {
+					cl.okObj = objOf(info, as.Lhs[1])
+				}
 			}
 			if !okc {
 				r.Viol("C20.b", fi.Key+"#lookup", p.pos(c), "environment variable name is not a constant")
@@ -516,6 +525,26 @@ func c20Table(p *Prog, r *Report) {
 	}
 }
 
+// isEnvLookupHelper: func(name string) (string[, bool]) whose body looks its parameter up in the environment.
+func isEnvLookupHelper(p *Prog, h *FuncInfo) bool {
+	sig := h.Sig()
+	if sig.Params().Len() != 1 || sig.Results().Len() < 1 || sig.Results().Len() > 2 {
+		return false
+	}
+	info := h.Pkg.TypesInfo
+	po := paramObjs(h)[0]
+	found := false
+	ast.Inspect(h.Decl.Body, func(x ast.Node) bool {
+		if c, ok := x.(*ast.CallExpr); ok && len(c.Args) == 1 && (isFunc(info, c, "os", "LookupEnv") || isFunc(info, c, "os", "Getenv")) {
+			if objOf(info, c.Args[0]) == po && po != nil {
+				found = true
+			}
+		}
+		return true
+	})
+	return found
+}
+
 func c20Clause(p *Prog, r *Report, cons string, l *cfgLeaf, cl *envClause) {
 	info := cl.fn.Pkg.TypesInfo
 	// guard truth table over (present, empty)
@@ -524,13 +553,57 @@ func c20Clause(p *Prog, r *Report, cons string, l *cfgLeaf, cl *envClause) {
 	for _, present := range []bool{true, false} {
 		for _, empty := range []bool{true, false} {
 			env := &Env{P: p, Pkg: cl.fn.Pkg, Vars: map[types.Object]*Val{}}
-			if cl.okObj != nil {
-				env.Vars[cl.okObj] = boolVal(present)
-			}
+			text := strVal("x")
 			if empty {
-				env.Vars[cl.envObj] = strVal("")
+				text = strVal("")
+			}
+			if cl.helper != nil {
+				// what the helper returns for this state of the environment
+				he := env.child(cl.helper.Pkg)
+				he.Multi = func(_ *Env, c *ast.CallExpr) ([]*Val, bool) {
+					if isFunc(info, c, "os", "LookupEnv") {
+						return []*Val{text, boolVal(present)}, true
+					}
+					return nil, false
+				}
+				he.Hook = func(_ *Env, e ast.Expr) (*Val, bool) {
+					if c, ok := e.(*ast.CallExpr); ok && isFunc(info, c, "os", "Getenv") {
+						return text, true
+					}
+					return nil, false
+				}
+				for _, po := range paramObjs(cl.helper) {
+					if po != nil {
+						he.Vars[po] = strVal(cl.envVar)
+					}
+				}
+				var ret []*Val
+				var herr error
+				func() {
+					defer func() {
+						if rec := recover(); rec != nil {
+							if ee, ok := rec.(evalErr); ok {
+								herr = ee
+								return
+							}
+							panic(rec)
+						}
+					}()
+					ret, _ = he.execBlock(cl.helper.Decl.Body.List)
+				}()
+				if herr != nil || len(ret) == 0 {
+					r.Undecided("C20.b", cons+"/guard", p.pos(cl.ifs.Cond), fmt.Sprintf("lookup helper %s not evaluable: %v", cl.helper.Key, herr))
+					return
+				}
+				env.Vars[cl.envObj] = ret[0]
+				if cl.okObj != nil && len(ret) > 1 {
+					env.Vars[cl.okObj] = ret[1]
+				}
 			} else {
-				env.Vars[cl.envObj] = strVal("x")
+				if cl.okObj != nil {
+					env.Vars[cl.okObj] = boolVal(present)
+				}
+				env.Vars[cl.envObj] = text
 			}
 			v, err := env.Eval(cl.ifs.Cond)
 			if err != nil || v.C == nil {
